@@ -563,6 +563,58 @@ func init() {
 			c.Errf("wire: InputRequestMap.UnmarshalJSON not found")
 		}
 
+		// CompleteReference: the struct, the reference types its two codec methods switch over (string
+		// literals), the decoder UnmarshalJSON uses
+		b.WriteString("\n")
+		emitStruct("CompleteReference", c.namedStruct("mcp", "CompleteReference"), "mcp/protocol.go")
+		for _, meth := range []string{"UnmarshalJSON", "MarshalJSON"} {
+			fd := c.Func("mcp", "CompleteReference", meth)
+			if fd == nil || fd.Body == nil {
+				c.Errf("wire: CompleteReference.%s not found", meth)
+				continue
+			}
+			var cases [][]string
+			calls := map[string]bool{}
+			ast.Inspect(fd.Body, func(n ast.Node) bool {
+				switch x := n.(type) {
+				case *ast.SwitchStmt:
+					if x.Tag != nil && strings.HasSuffix(c.Src(x.Tag), ".Type") {
+						for _, cl := range x.Body.List {
+							var one []string
+							for _, e := range cl.(*ast.CaseClause).List {
+								if lit, ok := e.(*ast.BasicLit); ok {
+									if s, err := strconv.Unquote(lit.Value); err == nil {
+										one = append(one, s)
+										continue
+									}
+								}
+								c.Errf("wire: CompleteReference.%s: case %s is not a string literal", meth, c.Src(e))
+							}
+							if cl.(*ast.CaseClause).List == nil {
+								one = []string{"<default>"}
+							}
+							cases = append(cases, one)
+						}
+					}
+				case *ast.CallExpr:
+					if fn := c.Src(x.Fun); strings.HasSuffix(fn, "Unmarshal") || strings.HasSuffix(fn, "Marshal") {
+						calls[fn] = true
+					}
+				}
+				return true
+			})
+			var cs []string
+			for k := range calls {
+				cs = append(cs, k)
+			}
+			sort.Strings(cs)
+			c.Fact("wire.complete_reference_"+strings.ToLower(meth)+"_cases", cases)
+			c.Fact("wire.complete_reference_"+strings.ToLower(meth)+"_calls", cs)
+		}
+		fmt.Fprintf(&b, "/-- mcp/protocol.go `CompleteReference`: the two reference types of the codec's switches (fact wire.complete_reference_*_cases) -/\n")
+		fmt.Fprintf(&b, "def refPromptType : List UInt8 := %s -- %q\n", wireLeanBytes("ref/prompt"), "ref/prompt")
+		fmt.Fprintf(&b, "def refResourceType : List UInt8 := %s -- %q\n", wireLeanBytes("ref/resource"), "ref/resource")
+
 		// scanEventsT: what is done to a line before it is looked at (the model's `trimRightCRLF`: a line
 		// ended by CRLF must come out like one ended by LF — sse_eol_irrelevant)
 		if fd := c.Func("mcp", "", "scanEventsT"); fd != nil && fd.Body != nil {
